@@ -1,5 +1,383 @@
 package main
 
-import "govc/vc"
+import (
+	"encoding/json"
+	"fmt"
+	"os"
+	"path/filepath"
+	"sort"
+	"strconv"
+	"strings"
+	"time"
 
-func runCheck(p *vc.Program, prop, tier string) int { return 2 }
+	"govc/solve"
+	"govc/vc"
+)
+
+type ledger struct {
+	Property    string            `json:"property"`
+	Obligations map[string]string `json:"obligations"` // name -> expected status ("unsat")
+	Units       []string          `json:"units"`
+}
+
+type finding struct {
+	Property   string `json:"property"`
+	Obligation string `json:"obligation"` // exact obligation name, or prefix ending in '*'
+	Input      string `json:"input"`
+	What       string `json:"what"`
+	Status     string `json:"status"` // known | fixed
+	Commit     string `json:"commit,omitempty"`
+}
+
+type evidence struct {
+	PropertyID  string                 `json:"property_id"`
+	Tier        string                 `json:"tier"`
+	Seed        int                    `json:"seed"`
+	Level       string                 `json:"level"`
+	Coverage    map[string]interface{} `json:"coverage"`
+	Assumptions []string               `json:"assumptions"`
+	WallS       float64                `json:"wall_s"`
+	Violations  int                    `json:"violations"`
+}
+
+func loadLedger(prop string) *ledger {
+	b, err := os.ReadFile(filepath.Join(*verifDir, "ledger", prop+".json"))
+	if err != nil {
+		return nil
+	}
+	var l ledger
+	if json.Unmarshal(b, &l) != nil {
+		return nil
+	}
+	return &l
+}
+
+func loadFindings() []finding {
+	b, err := os.ReadFile(filepath.Join(*verifDir, "known_findings.json"))
+	if err != nil {
+		return nil
+	}
+	var fs struct {
+		Findings []finding `json:"findings"`
+	}
+	json.Unmarshal(b, &fs)
+	return fs.Findings
+}
+
+func matchFinding(fs []finding, prop, name string) *finding {
+	for i := range fs {
+		f := &fs[i]
+		if f.Property != prop || f.Status != "known" {
+			continue
+		}
+		if f.Obligation == name || (strings.HasSuffix(f.Obligation, "*") && strings.HasPrefix(name, strings.TrimSuffix(f.Obligation, "*"))) {
+			return f
+		}
+	}
+	return nil
+}
+
+func hasProp(ps []string, p string) bool {
+	for _, q := range ps {
+		if q == p {
+			return true
+		}
+	}
+	return false
+}
+
+func runCheck(p *vc.Program, prop, tier string) int {
+	t0 := time.Now()
+	seed, _ := strconv.Atoi(os.Getenv("VERIF_SEED"))
+	if t := os.Getenv("VERIF_TIER"); t == "quick" || t == "thorough" {
+		tier = t
+	}
+	tmo := 20
+	if tier == "thorough" {
+		tmo = 120
+	}
+	if *timeout > 0 {
+		tmo = *timeout
+	}
+	// units for this property
+	var unitKeys []string
+	trusted := []string{}
+	for k, c := range p.DB.Contracts {
+		if !hasProp(c.Props, prop) {
+			continue
+		}
+		if c.Trusted {
+			trusted = append(trusted, k)
+			continue
+		}
+		if c.NoVerify {
+			continue
+		}
+		unitKeys = append(unitKeys, k)
+	}
+	sort.Strings(unitKeys)
+	sort.Strings(trusted)
+	if *listUnits {
+		for _, k := range unitKeys {
+			fmt.Println(k)
+		}
+		return 0
+	}
+	led := loadLedger(prop)
+	findings := loadFindings()
+	dir, _ := os.MkdirTemp("", "govc-"+prop)
+	defer os.RemoveAll(dir)
+
+	type unitOut struct {
+		res *vc.UnitResult
+	}
+	var units []*vc.UnitResult
+	var all []*vc.Obligation
+	// generate VCs (parallel over units)
+	{
+		results := make([]*vc.UnitResult, len(unitKeys))
+		sem := make(chan struct{}, 8)
+		done := make(chan int, len(unitKeys))
+		for i, k := range unitKeys {
+			sem <- struct{}{}
+			go func(i int, k string) {
+				results[i] = p.VerifyFunc(k)
+				<-sem
+				done <- i
+			}(i, k)
+		}
+		for range unitKeys {
+			<-done
+		}
+		units = results
+	}
+	lemmaObs := p.VerifyLemmas(prop)
+	for _, u := range units {
+		all = append(all, u.Obligations...)
+	}
+	all = append(all, lemmaObs...)
+	genS := time.Since(t0).Seconds()
+	results := solveAll(all, dir, tmo, seed)
+
+	// classify
+	var violations []string
+	var knownLines []string
+	undecided := []string{}
+	discharged, total, covers, coverBad := 0, 0, 0, 0
+	bySolver := map[string]int{}
+	solverSeconds := 0.0
+	newLedger := &ledger{Property: prop, Obligations: map[string]string{}, Units: unitKeys}
+	replayDir := filepath.Join(*verifDir, "replay", prop)
+	var samples []map[string]interface{}
+	knownCount := 0
+	seenNow := map[string]bool{}
+	for _, r := range results {
+		ob := r.Ob
+		solverSeconds += r.Ans.Seconds
+		if ob.Cover {
+			covers++
+			if r.Ans.Status == solve.Unsat {
+				coverBad++
+				fmt.Printf("VACUOUS: %s: assumptions are contradictory\n", ob.Name)
+			}
+			continue
+		}
+		seenNow[ob.Name] = true
+		if len(samples) < 5 && r.Ans.Status == solve.Unsat {
+			samples = append(samples, map[string]interface{}{"obligation": ob.Name, "kind": ob.Kind, "at": ob.Pos, "what": ob.Descr,
+				"smt_bytes": len(ob.Script), "solver": r.Ans.Solver, "seconds": round3(r.Ans.Seconds), "float_model": ob.FMode})
+		}
+		if r.Ans.Status == solve.Unsat {
+			total++
+			discharged++
+			bySolver[r.Ans.Solver]++
+			newLedger.Obligations[ob.Name] = "unsat"
+			continue
+		}
+		if f := matchFinding(findings, prop, ob.Name); f != nil {
+			knownCount++
+			knownLines = append(knownLines, fmt.Sprintf("KNOWN-FINDING: property=%s %s: %s [%s]", prop, ob.Name, f.What, f.Input))
+			continue
+		}
+		inLedger := led != nil && led.Obligations[ob.Name] == "unsat"
+		if r.Ans.Status == solve.Unknown && !inLedger && led != nil {
+			undecided = append(undecided, ob.Name+" ("+r.Ans.Detail+")")
+			continue
+		}
+		total++
+		// violation
+		os.MkdirAll(replayDir, 0o755)
+		rp := filepath.Join(replayDir, sanitizeName(ob.Name)+".txt")
+		confirmed, rtext := tryReplay(p, ob, r.Ans, dir)
+		var sb strings.Builder
+		fmt.Fprintf(&sb, "property: %s\nobligation: %s\nkind: %s\nfunction under contract: %s\nsite: %s %s\nwhat: %s\nsolver outcome: %s [%s]\nin ledger as discharged: %v\n", prop, ob.Name, ob.Kind, ob.Func, ob.Site, ob.Pos, ob.Descr, r.Ans.Status, r.Ans.Detail, inLedger)
+		fmt.Fprintf(&sb, "replay confirmed on real code: %v\n\n%s\n", confirmed, rtext)
+		if r.Ans.Model != "" {
+			fmt.Fprintf(&sb, "---- solver model (inputs) ----\n%s\n", trimModel(r.Ans.Model, ob))
+		}
+		fmt.Fprintf(&sb, "---- SMT script ----\n%s\n", ob.Script)
+		os.WriteFile(rp, []byte(sb.String()), 0o644)
+		line := fmt.Sprintf("VIOLATION property=%s replay=%s obligation=%s", prop, rp, ob.Name)
+		if !confirmed {
+			line += " no-failing-input-found"
+		}
+		violations = append(violations, line)
+	}
+	// units that could not be translated
+	unsupported := []string{}
+	for _, u := range units {
+		if u.Unsupported == "" {
+			continue
+		}
+		unsupported = append(unsupported, u.Key+": "+u.Unsupported)
+		inLed := false
+		if led != nil {
+			for _, k := range led.Units {
+				if k == u.Key {
+					inLed = true
+				}
+			}
+		}
+		if inLed || led == nil {
+			name := u.Key + "/translate"
+			if f := matchFinding(findings, prop, name); f != nil {
+				knownLines = append(knownLines, fmt.Sprintf("KNOWN-FINDING: property=%s %s: %s", prop, name, f.What))
+				continue
+			}
+			total++
+			os.MkdirAll(replayDir, 0o755)
+			rp := filepath.Join(replayDir, sanitizeName(name)+".txt")
+			os.WriteFile(rp, []byte(fmt.Sprintf("property: %s\nobligation: %s\nThe function under contract can no longer be translated or its contract can no longer be applied, so none of its obligations is discharged.\nreason: %s\n", prop, name, u.Unsupported)), 0o644)
+			violations = append(violations, fmt.Sprintf("VIOLATION property=%s replay=%s obligation=%s no-failing-input-found", prop, rp, name))
+		}
+	}
+	// ledger obligations that vanished from a unit that still translates: informational
+	vanished := []string{}
+	if led != nil {
+		for name := range led.Obligations {
+			if !seenNow[name] {
+				vanished = append(vanished, name)
+			}
+		}
+		sort.Strings(vanished)
+	}
+	if *ledgerUp {
+		os.MkdirAll(filepath.Join(*verifDir, "ledger"), 0o755)
+		b, _ := json.MarshalIndent(newLedger, "", " ")
+		os.WriteFile(filepath.Join(*verifDir, "ledger", prop+".json"), b, 0o644)
+	}
+	// evidence
+	fuc := map[string]interface{}{}
+	var contracted, inlined, opaque, models, notes []string
+	floatReal := []string{}
+	for _, u := range units {
+		contracted = append(contracted, u.Key)
+		inlined = append(inlined, u.Inlined...)
+		opaque = append(opaque, u.Opaque...)
+		models = append(models, u.Models...)
+		notes = append(notes, u.Notes...)
+		if u.FloatMode == "real" && u.FloatArith {
+			floatReal = append(floatReal, u.Key)
+		}
+	}
+	fuc["contracted"] = contracted
+	fuc["inlined"] = uniqS(inlined)
+	fuc["opaque_callees"] = uniqS(opaque)
+	fuc["trusted_contracts"] = trusted
+	fuc["stdlib_models"] = uniqS(models)
+	assumptions := []string{
+		"T-gen: the VC generator govc (SSA to SMT translation, memory model, contract parser) is itself unverified; guarded by the must-fail / must-pass self-test corpus",
+		"T-ssa: go/ssa (x/tools v0.29.0) faithfully represents the compiled program; Go compiler and runtime correct",
+		"T-smt: an unsat answer from z3 4.8.12 / z3 5.1.0 / cvc5 1.0.3 is correct",
+		"A-64: int/uint are 64 bits (linux/amd64)",
+		"A-mem: no slice spans more than 2^48 bytes",
+		"A-callback: function-typed arguments are opaque and do not write memory visible to the callee",
+	}
+	for _, t := range trusted {
+		assumptions = append(assumptions, "trusted contract (assumed, body not verified): "+t)
+	}
+	for _, m := range uniqS(models) {
+		assumptions = append(assumptions, "A-std: assumed model of "+m)
+	}
+	for _, o := range uniqS(opaque) {
+		assumptions = append(assumptions, "opaque callee (result unconstrained, assumed panic-free): "+o)
+	}
+	for _, f := range floatReal {
+		assumptions = append(assumptions, "A-real: machine arithmetic treated as mathematical in "+f)
+	}
+	assumptions = append(assumptions, uniqS(notes)...)
+	cov := map[string]interface{}{
+		"obligations":              total,
+		"discharged":               discharged,
+		"checker_cmd":              fmt.Sprintf("/verif/bin/check %s %s  (govc -prop %s -tier %s; per obligation: z3-new 5.1.0 first, then race z3 4.8.12 | z3-new | cvc5 1.0.3, timeout %ds)", prop, tier, prop, tier, tmo),
+		"trusted_base":             []string{"govc (this generator)", "golang.org/x/tools/go/ssa v0.29.0", "z3 4.8.12", "z3 5.1.0", "cvc5 1.0.3", "Go 1.23.5 toolchain"},
+		"functions_under_contract": fuc,
+		"units":                    len(units),
+		"by_solver":                bySolver,
+		"solver_seconds":           round3(solverSeconds),
+		"vc_generation_seconds":    round3(genS),
+		"cover_checks":             covers,
+		"cover_checks_vacuous":     coverBad,
+		"undecided":                undecided,
+		"unsupported_units":        unsupported,
+		"known_findings":           knownCount,
+		"ledger_obligations_absent_now": len(vanished),
+		"samples":                  samples,
+		"exhaustive":               false,
+	}
+	ev := evidence{PropertyID: prop, Tier: tier, Seed: seed, Level: "proof", Coverage: cov, Assumptions: assumptions,
+		WallS: round3(time.Since(t0).Seconds()), Violations: len(violations)}
+	os.MkdirAll(filepath.Join(*verifDir, "evidence"), 0o755)
+	b, _ := json.MarshalIndent(ev, "", " ")
+	os.WriteFile(filepath.Join(*verifDir, "evidence", prop+".json"), b, 0o644)
+
+	for _, l := range knownLines {
+		fmt.Println(l)
+	}
+	for _, u := range undecided {
+		fmt.Println("UNDECIDED:", u)
+	}
+	for _, u := range unsupported {
+		fmt.Println("UNSUPPORTED:", u)
+	}
+	for _, v := range violations {
+		fmt.Println(v)
+	}
+	fmt.Printf("%s %s: %d units, %d obligations, %d discharged, %d known findings, %d undecided, %d violations, %.1fs\n",
+		prop, tier, len(units), total, discharged, knownCount, len(undecided), len(violations), time.Since(t0).Seconds())
+	if total == 0 {
+		fmt.Println("ERROR: zero obligations generated (vacuous run)")
+		return 2
+	}
+	if len(violations) > 0 {
+		return 1
+	}
+	return 0
+}
+
+func round3(f float64) float64 { return float64(int(f*1000+0.5)) / 1000 }
+
+func uniqS(in []string) []string {
+	m := map[string]bool{}
+	out := []string{}
+	for _, s := range in {
+		if !m[s] {
+			m[s] = true
+			out = append(out, s)
+		}
+	}
+	sort.Strings(out)
+	return out
+}
+
+func sanitizeName(s string) string {
+	var sb strings.Builder
+	for _, r := range s {
+		if (r >= 'a' && r <= 'z') || (r >= 'A' && r <= 'Z') || (r >= '0' && r <= '9') || r == '-' || r == '_' || r == '.' || r == '#' || r == '@' {
+			sb.WriteRune(r)
+		} else {
+			sb.WriteByte('_')
+		}
+	}
+	return sb.String()
+}
